@@ -214,6 +214,8 @@ def build(op, env, arrays=None):
     if t == "evreduce":  # reduction over event (output) dims
         a = env[op["a"]]
         return getattr(a, op["fn"])(op.get("axis"))
+    if t == "approximate":  # exact under every exact interpretation
+        return env[op["a"]].approximate(get_op(op["fn"]), env[op["b"]], frozenset(op["vars"]))
     if t == "reshape":
         return env[op["a"]].reshape(tuple(op["shape"]))
     if t == "align":
@@ -284,7 +286,7 @@ class Gen:
         one domain throughout the operands an operation combines."""
         t = op["op"]
         maps = []
-        if t in ("binary",):
+        if t in ("binary", "approximate"):
             maps = [dict(self.types[op["a"]].inputs), dict(self.types[op["b"]].inputs)]
         elif t == "stack":
             maps = [dict(self.types[p].inputs) for p in op["parts"]]
@@ -399,6 +401,7 @@ class Gen:
             ("scatter", 0.5),
             ("getslice", 0.5),
             ("opcat", 0.5),
+            ("approximate", 0.4),
         ]
         if self.allow is not None:
             kinds = [(k, w) for k, w in kinds if k in self.allow]
@@ -595,6 +598,17 @@ class Gen:
             ta = self.types[a]
             b = self.pick(lambda v: v.output == ta.output) or a
             return self.emit({"op": r.choice(["opcat", "opstack"]), "parts": [a, b], "axis": r.choice([0, -1])})
+        if kind == "approximate":
+            if self.family_name not in ("log", "tropical"):
+                return None
+            a = self.pick(lambda v: fv(v) and v.output == Real and any(d.dtype != "real" for d in v.inputs.values()))
+            if a is None:
+                return None
+            ta = self.types[a]
+            b = self.pick(lambda v: fv(v) and v.output == Real) or a
+            cand = [n for n, d in ta.inputs.items() if d.dtype != "real"]
+            names = r.sample(cand, r.randint(1, len(cand)))
+            return self.emit({"op": "approximate", "fn": "logaddexp" if self.family_name == "log" else "max", "a": a, "b": b, "vars": names})
         if kind == "align":
             a = self.pick(lambda v: len(v.inputs) > 1)
             if a is None:
